@@ -90,6 +90,7 @@ func (pg *PERIOGroup) stopTicker() {
 
 type Server struct {
 	evtCh     chan Event
+	done      chan struct{}                 // closed when Serve has returned
 	perioList map[time.Duration]*PERIOGroup // key: period
 
 	handler  report.Handler
@@ -99,6 +100,7 @@ type Server struct {
 func OpenServer(wg *sync.WaitGroup) (*Server, error) {
 	s := &Server{
 		evtCh:     make(chan Event, EVENT_CHANNEL_LEN),
+		done:      make(chan struct{}),
 		perioList: make(map[time.Duration]*PERIOGroup),
 	}
 
@@ -108,8 +110,20 @@ func OpenServer(wg *sync.WaitGroup) (*Server, error) {
 	return s, nil
 }
 
+// Close stops the server and returns once it has finished: a periodic query
+// that is in progress completes first, so the caller may tear down what the
+// query callback uses.
 func (s *Server) Close() {
-	s.evtCh <- Event{eType: TYPE_SERVER_CLOSE}
+	s.post(Event{eType: TYPE_SERVER_CLOSE})
+	<-s.done
+}
+
+// post hands an event to the server unless the server has already stopped.
+func (s *Server) post(e Event) {
+	select {
+	case s.evtCh <- e:
+	case <-s.done:
+	}
 }
 
 func (s *Server) Handle(
@@ -124,7 +138,8 @@ func (s *Server) Serve(wg *sync.WaitGroup) {
 	logger.PerioLog.Infof("perio server started")
 	defer func() {
 		logger.PerioLog.Infof("perio server stopped")
-		close(s.evtCh)
+		// evtCh stays open: callers may still be posting; they give up on done
+		close(s.done)
 		wg.Done()
 	}()
 
@@ -225,18 +240,18 @@ func (s *Server) Serve(wg *sync.WaitGroup) {
 }
 
 func (s *Server) AddPeriodReportTimer(lSeid uint64, urrid uint32, period time.Duration) {
-	s.evtCh <- Event{
+	s.post(Event{
 		eType:  TYPE_PERIO_ADD,
 		lSeid:  lSeid,
 		urrid:  urrid,
 		period: period,
-	}
+	})
 }
 
 func (s *Server) DelPeriodReportTimer(lSeid uint64, urrid uint32) {
-	s.evtCh <- Event{
+	s.post(Event{
 		eType: TYPE_PERIO_DEL,
 		lSeid: lSeid,
 		urrid: urrid,
-	}
+	})
 }
